@@ -10,6 +10,7 @@ then compares what the implementation returned with both, and evaluates the prop
 (the oracle) directly on the implementation's output.
 """
 import itertools
+import py2v_op
 import json
 import os
 import random
@@ -22,10 +23,13 @@ import numpy as np
 from common import CORPUS, q
 
 CONFIG = {
-    "cone": ["Base/ListUtil.v", "Model/Store.v", "Model/Emit.v", "Proofs/EmitProofs.v", "Properties/C08.v"],
+    "cone": ["Base/ListUtil.v", "Model/Store.v", "Model/Emit.v", "Proofs/EmitProofs.v", "Properties/C08.v",
+             "Model/OpFacts.v", "Generated/OpGen.v", "Refine/OpRefine.v"],
+    "extra_property_files": ["Refine/OpRefine.v"],
     "trusted": [
         "Model/Emit.v is a hand-written description of the ask paths over exact rationals with randomness as an input; it is "
-        "tied to the code by this differential run only",
+        "tied to the code by this differential run and, for the two operators (GaussianOperator.ask, IsoLineOperator.ask), by the "
+        "fail-closed translator harness/py2v_op.py -> Generated/OpGen.v with Refine/OpRefine.v (gen_gaussian_is_model, gen_isoline_is_model)",
         "numpy Generator streams are reproduced from the seeds (default_rng(seed), SeedSequence(seed).spawn(2)[0]) and "
         "assumed chunk-invariant for normal/standard_normal; numpy's own +,*,clip,astype are the arithmetic reference",
         "ES candidates are computed with the strategy class's own transform kernel (_transform_and_check_sol; its "
@@ -1009,6 +1013,7 @@ def combos(rng):
 
 
 def check(rep, tier, seed, driver):
+    py2v_op.report(rep)
     rng = random.Random(seed)
     n = 600 if tier == "quick" else 6000
     rep.rule = ("ask/tell histories (3-10 iterations, interleaved with archive.clear() and solutions added by a third party) of every "
